@@ -4,7 +4,7 @@
    hypotheses of the statements:
      aes_inverse aes_enc aes_dec :=
        forall k b, length b = 16 -> aes_dec k (aes_enc k b) = b /\ length (aes_enc k b) = 16.
-   Nothing is assumed of SHA-256.  countPadding, getX, Side.DecryptSide and maxPadding are
+   Nothing is assumed of SHA-256.  countPadding, getX, Side.DecryptSide, minPadding and maxPadding are
    the definitions generated from the Go source (Gen/CipherConsts.v). *)
 From Coq Require Import ZArith List Bool Lia.
 From TD Require Import Lib.Bytes Lib.GoSem Gen.CipherConsts Model.MsgCrypto Proof.MsgCrypto Proof.MsgAccept.
@@ -15,7 +15,8 @@ Open Scope Z_scope.
    machine ranges, payload aligned to 4 (any length below 2^31), every random stream that
    holds the padding drawn by its first byte, and both sides s: what side s encrypts, the
    other side decrypts to exactly the same header and payload; the encrypted body is a
-   multiple of 16; the random padding is between 12 and 267 <= maxPadding (= 1024) bytes. *)
+   multiple of 16; the random padding is between 12 and 267 bytes, inside the window
+   [minPadding, maxPadding] = [12, 1024] that the receiver accepts. *)
 Theorem C04_roundtrip :
   forall (sha256 : list Z -> list Z) (aes_enc aes_dec : list Z -> list Z -> list Z),
     aes_inverse aes_enc aes_dec ->
@@ -32,7 +33,7 @@ Theorem C04_roundtrip :
         decrypt_msg sha256 aes_dec (other s) k ct = Ok (h, p) /\
         length ct = (24 + 32 + length p + length pad)%nat /\
         (Z.of_nat (length ct) - 24) mod 16 = 0 /\
-        12 <= Z.of_nat (length pad) <= 267 /\ 267 <= c_maxPadding.
+        12 <= Z.of_nat (length pad) <= 267 /\ c_minPadding <= 12 /\ 267 <= c_maxPadding.
 Proof. exact encrypt_decrypt_roundtrip. Qed.
 Print Assumptions C04_roundtrip.
 
